@@ -47,6 +47,15 @@ class Ctx:
                 self.assume(a)
         return self._escapes[name]
 
+    def sval(self, fi):
+        """value terms (sa.sval) of a function, cached"""
+        if not hasattr(self, '_svals'):
+            self._svals = {}
+        if fi.qual not in self._svals:
+            from .sval import SVal
+            self._svals[fi.qual] = SVal(self.prog, self.res, fi)
+        return self._svals[fi.qual]
+
     def func(self, qual):
         f = self.prog.func(qual)
         self.functions.add(qual)
